@@ -45,7 +45,7 @@ const (
 	vetChunk        = 1500
 	vetPerInput     = 3 * time.Second  // deadline of one input inside a chunk child
 	vetConfirm      = 8 * time.Second  // deadline of the confirming single-input child
-	vetHeapLimit    = 768 << 20        // bytes of heap a child may use
+	vetHeapLimit    = 256 << 20        // bytes of heap a child may use (program texts are a few KB)
 	vetAddressSpace = 6 << 30          // RLIMIT_AS of a child (hard stop)
 	vetParentSlack  = 10 * time.Second // parent-side timeout beyond the per-input deadline
 )
@@ -134,8 +134,12 @@ type vetter struct {
 	exe    string
 	nfile  int
 	bad    map[string]string // vetItem key -> why
+	good   map[string]bool   // vetItem key -> a child finished it
 	broken bool              // children cannot be run at all (reported once)
 }
+
+// after this many confirmed non-terminating inputs the vetting stops; what was not vetted is not run
+const vetMaxBad = 6
 
 func newVetter(o *hc.Out, out string) *vetter {
 	dir := os.Getenv("VERIF_SCRATCH")
@@ -146,11 +150,12 @@ func newVetter(o *hc.Out, out string) *vetter {
 	if err != nil {
 		exe = os.Args[0]
 	}
-	return &vetter{o: o, dir: dir, exe: exe, bad: map[string]string{}}
+	return &vetter{o: o, dir: dir, exe: exe, bad: map[string]string{}, good: map[string]bool{}}
 }
 
 // runChild runs items[from:] in one child; returns the index (into items) of the input the child died on, or -1.
 func (v *vetter) runChild(items []vetItem, perInput time.Duration) (died int, why string) {
+	working("")
 	v.nfile++
 	fn := filepath.Join(v.dir, fmt.Sprintf("c18-vet-%d-%d.in", os.Getpid(), v.nfile))
 	var b strings.Builder
@@ -221,7 +226,7 @@ func (v *vetter) vet(items []vetItem) {
 		}
 	}
 	v.o.Stats["vet.inputs"] = len(uniq)
-	for from := 0; from < len(uniq) && !v.broken; {
+	for from := 0; from < len(uniq) && !v.broken && len(v.bad) < vetMaxBad; {
 		to := from + vetChunk
 		if to > len(uniq) {
 			to = len(uniq)
@@ -229,8 +234,16 @@ func (v *vetter) vet(items []vetItem) {
 		v.o.Count("vet.children")
 		died, why := v.runChild(uniq[from:to], vetPerInput)
 		if died < 0 {
+			if !v.broken {
+				for _, it := range uniq[from:to] {
+					v.good[it.key()] = true
+				}
+			}
 			from = to
 			continue
+		}
+		for _, it := range uniq[from : from+died] {
+			v.good[it.key()] = true
 		}
 		culprit := uniq[from+died]
 		// confirm on its own, with a longer deadline
@@ -260,18 +273,18 @@ func (v *vetter) fails(it vetItem, perInput time.Duration) bool {
 }
 
 func (v *vetter) report(it vetItem, why string) {
-	if v.o.Stats["law_fail:parser_does_not_terminate"] >= 6 {
-		return
+	// shrink the first two with a small budget of child runs (every failing attempt costs the detection time)
+	text, budget := it.text, 10
+	if v.o.Stats["law_fail:parser_does_not_terminate"] >= 2 {
+		budget = 0
 	}
-	// shrink with a small budget of child runs (every failing attempt costs up to the detection time)
-	text, budget := it.text, 14
 	shr := shrink(text, func(s string) bool {
 		if budget <= 0 || s == "" {
 			return false
 		}
 		budget--
 		return v.fails(vetItem{s, it.prep, it.ansi}, 2*time.Second)
-	}, 14)
+	}, 10)
 	c := map[string]interface{}{"input": shr, "input_hex": hx(shr), "mode": modeName(it.prep, it.ansi),
 		"detail": "Scanner.Scan / parser.Parse did not finish in a child process: " + why}
 	if shr != text {
@@ -281,9 +294,10 @@ func (v *vetter) report(it vetItem, why string) {
 	v.o.Law("parser_does_not_terminate", c)
 }
 
+// ok: every text of the job was finished by a child
 func (v *vetter) ok(j job) bool {
 	for _, it := range j.vets {
-		if _, bad := v.bad[it.key()]; bad {
+		if !v.good[it.key()] {
 			return false
 		}
 	}
